@@ -8,6 +8,7 @@ import (
 	"os"
 	"os/exec"
 	"path/filepath"
+	"strings"
 	"sync"
 	"time"
 
@@ -317,6 +318,25 @@ func genE2E(r *core.Run, i int) *e2eCase {
 		c.Pieces = append(c.Pieces, gen.BinStr(piece))
 		c.Prefix = append(c.Prefix, gen.BinStr(newExp))
 		c.Suffix = append(c.Suffix, gen.BinStr(suffix))
+	}
+	if i%3 == 2 {
+		// a burst of complete lines that exactly fills (a multiple of) pp's 16 KiB read buffer, then the
+		// producer blocks: everything delivered must come out
+		size := []int{16384, 32768, 16384 - 64, 16384 + 64, 8192, 49152}[rr.Intn(6)]
+		var burst []byte
+		for n := 0; len(burst) < size; n++ {
+			line := fmt.Sprintf("%04d %s\n", n, strings.Repeat("x", 58))
+			if len(burst)+len(line) > size {
+				line = strings.Repeat("y", size-len(burst)-1) + "\n"
+			}
+			burst = append(burst, line...)
+		}
+		exp = append(exp, burst...)
+		emit(string(burst), append([]byte{}, exp...), "")
+		tail := "after the burst\n"
+		exp = append(exp, tail...)
+		emit(tail, append([]byte{}, exp...), "")
+		return c
 	}
 	nl := 2 + rr.Intn(5)
 	for k := 0; k < nl; k++ {
